@@ -301,5 +301,27 @@ def describe_point(p):
             if a not in ("_time_zone",) and getattr(p, a, None) is not None})
 
 
+def pkey(p):
+    """hashable identity of a concrete TimePoint's state (never raises)"""
+    if p is None:
+        return None
+    tz = p._time_zone
+    return tuple(getattr(p, a, None) for a in p.__slots__ if a != "_time_zone") + (tz._hours, tz._minutes, tz._unknown)
+
+
+def sstr(x):
+    """str() that never raises (negative years need expanded digits to print)"""
+    try:
+        return str(x)
+    except Exception:
+        if isinstance(x, (list, tuple)):
+            return "[%s]" % ", ".join(sstr(y) for y in x)
+        if hasattr(x, "_start_point"):
+            return "<recurrence R%s start=%s end=%s interval=%s>" % (x._repetitions, sstr(x._start_point), sstr(x._end_point), sstr(x._duration))
+        if hasattr(x, "_year"):
+            return describe_point(x)
+        return "<%s>" % type(x).__name__
+
+
 def set_mode(data, mode):
     data.CALENDAR.set_mode(mode)
